@@ -13,7 +13,7 @@ PROPERTY = "C01"
 FLAVOURS = ("py26", "py27", "ext", "twisted", "tt", "stream", "none")
 UNSUCCESSFUL = ("addError", "addFailure", "addUnexpectedSuccess")
 FINAL_STATES = ("exists", "xfail", "uxsuccess", "success", "fail", "skip", "unknown")
-DECORATORS = ("skip_method", "skipIf_method", "skipUnless_method", "skipIf_false", "skip_class", "xfail_decorator")
+DECORATORS = ("skip_method", "skipIf_method", "skipUnless_method", "skipIf_false", "skip_class", "xfail_decorator", "skip_empty_reason", "skipIf_empty_reason", "unittest_skip_bare")
 
 
 def make_result(flavour):
@@ -61,8 +61,10 @@ def bound_for(tier, nc):
 
 
 SKIP_NONSTR = "skip_nonstr"
+MULTI_NESTED_KBI = "multi_nested_kbi"
 pg.FLATTEN[SKIP_NONSTR] = (pg.SKIP,)
-KINDS = pg.ALL_KINDS + (SKIP_NONSTR,)
+pg.FLATTEN[MULTI_NESTED_KBI] = (pg.ERROR, pg.KBI)
+KINDS = pg.ALL_KINDS + (SKIP_NONSTR, MULTI_NESTED_KBI)
 _base_perform = pg.perform
 
 
@@ -72,6 +74,30 @@ def _perform(case, ctx, stage, kind):
         ctx.raised.append((stage, kind, "%s!%s" % (stage, kind)))
         ctx.xlog.append(("raise", stage, kind))
         case.skipTest(42)
+    if kind == MULTI_NESTED_KBI:
+        # a MultipleExceptions one of whose constituents is itself a MultipleExceptions carrying an
+        # interrupt (what a composite fixture built from composite parts raises)
+        import sys
+
+        from testtools.runtest import MultipleExceptions
+
+        marker = "%s!%s" % (stage, kind)
+        ctx.raised.append((stage, kind, marker))
+        ctx.xlog.append(("raise", stage, kind))
+        infos = []
+        try:
+            raise pg.VerifError(marker + "/e")
+        except pg.VerifError:
+            infos.append(sys.exc_info())
+        try:
+            raise KeyboardInterrupt("%s!kbi" % stage)
+        except KeyboardInterrupt:
+            inner = sys.exc_info()
+        try:
+            raise MultipleExceptions(inner)
+        except MultipleExceptions:
+            infos.append(sys.exc_info())
+        raise MultipleExceptions(*infos)
     return _base_perform(case, ctx, stage, kind)
 
 
